@@ -728,3 +728,148 @@ def byvalue_cases(rng, n, inplace_values=(False,), flavour=None):
         h.add(("helper", x, (kind, 53), hargs), ("inst", cid), fail_at)
         out.append({"table": table, "ops": h.ops, "nd": len(heap0)})
     return out
+
+
+# ---------------------------------------------------------------------------
+# Aimed replacement cases: an EXISTING instance which the caller keeps as a root is handed to a
+# helper as the complete replacement / new value TOGETHER with two or more keywords, an accepted
+# keyword before the rejected one (or none rejected: the copy-on-write call returns):
+#   x.update(<replacement>, kw1=ok, kw2=<rejected>)          top-level, any class of the table
+#   x.transform(<fn handing back the instance it is given>, a=f, b=<failing g>)
+#   x.update_<attr>(<replacement>, kw...), x.with_<attr>(<instance>, kw...)     nested attribute
+#   x.with_<item>(<instance>, kw...), x.with_<item>(<key>, <instance>, kw...),
+#   x.update_<item>(<index / key>, <replacement>, kw...)                       spec elements
+# rejected = ill-typed scalar, collection with an ill-typed member, wrong nested value, or a user
+# callback (preparer / item preparer / __post_copy__) made to raise at its 1st..3rd invocation.
+# The keywords are applied to a COPY of the handed-over instance: the caller's object (and the
+# receiver) stay as they are whether the call returns or raises.  (The random histories call
+# top-level `update` with keywords only; `element_cases(handover)` never has an accepted keyword
+# in front of the rejected one.)
+def replacement_cases(rng, n, inplace_values=(False,), flavour=None, inplace_top=False):
+    """inplace_values: drawn for the nested shapes; the top-level shapes are copy-on-write unless
+    `inplace_top` (top-level multi-keyword `_inplace=True` calls commit keyword by keyword)"""
+    from inst_common import resolve_table
+    out = []
+    guard = 0
+    while len(out) < n and guard < 20 * n:
+        guard += 1
+        table = gen_table(rng, flavour)
+        if table[1].get("frozen"):
+            continue
+        if rng.random() < 0.4 and table[1]["attrs"][0].get("prepare") is None:
+            table[1]["attrs"][0]["prepare"] = rng.choice([("id",), ("addint", 1)])   # a scalar preparer
+        _, heap0 = resolve_table(table)
+        h = Hist(rng, table, len(heap0))
+        inplace = rng.choice(list(inplace_values))
+        hargs = {"inplace": inplace, "if_": True}
+        fail_at = None
+        holders = [2, 2, 3] + ([4] if len(table) > 3 else [])
+        shape = rng.choice(["top", "top", "top", "top", "transform", "nested", "nested", "nested", "nested"])
+        reject = rng.choice(["bad", "bad", "bad", "bad", "callback", "none"])
+
+        def later(k):
+            """position of the rejected keyword among k: usually not the first"""
+            return rng.choice([0] + 5 * list(range(1, k))) if k > 1 else 0
+
+        def holder(cid):
+            """a K2/K3/K4 instance built from few arguments (short histories shrink fast)"""
+            kw = []
+            for a in rng.sample(h.attrs_of(cid), rng.choice([0, 1, 2, 2])):
+                kw.append((a["aid"], h.value_for(a)))
+            return h.add(("construct", cid, None, kw), ("inst", cid))
+
+        def k1_keywords():
+            aids = rng.sample([1, 2, 3], rng.choice([2, 2, 3]))
+            good = {1: lambda: V(rng.choice([3, 4, 5])), 2: lambda: S(rng.choice([7, 8, 9])),
+                    3: lambda: rng.choice([V(4), V(6), NONE])}
+            kw = [(a, good[a]()) for a in aids]
+            if reject != "none":
+                j = later(len(kw))
+                a = kw[j][0]
+                kw[j] = (a, h.int_val(True) if a == 1 else V(1) if a == 2 else S(7))
+            return kw
+
+        if shape in ("top", "transform") and not inplace_top:
+            hargs["inplace"] = inplace = False
+        if shape == "top":
+            cid = rng.choice(holders + [1])
+            if cid == 1:
+                x = h.new_k1()[1]
+                r = x if rng.random() < 0.1 else h.new_k1()[1]
+                kw = k1_keywords()
+            else:
+                x = holder(cid)
+                r_cid = cid if rng.random() < 0.8 else rng.choice(holders)
+                r = x if rng.random() < 0.1 else holder(r_cid)
+                # keywords both classes manage (the generated `update` only takes the receiver's
+                # attribute names; a name the replacement's class lacks would become a plain attribute)
+                attrs = h.attrs_of(cid if r == x or r_cid == cid or cid != 3 else 2)
+                chosen = rng.sample(attrs, rng.choice([2, 2, 3]))
+                if reject == "callback":
+                    # the callback-bearing attributes last, an ordinary one before them
+                    cb = [a for a in attrs if a.get("prepare") or a.get("prepare_item")]
+                    plain = [a for a in attrs if not (a.get("prepare") or a.get("prepare_item")) and a["aid"] != 4]
+                    if cb and plain:
+                        chosen = [rng.choice(plain), rng.choice(cb)]
+                kw = [(a["aid"], h.value_for(a)) for a in chosen]
+                if reject == "bad":
+                    j = later(len(kw))
+                    kw[j] = (chosen[j]["aid"], h.value_for(chosen[j], bad=True))
+            if reject == "callback":
+                fail_at = rng.choice([1, 1, 2, 3])
+            hargs["pos"] = [("root", r)] if rng.random() < 0.95 else [NONE]
+            hargs["kw"] = kw
+            h.add(("helper", x, ("update_top", None), hargs), ("inst", cid), fail_at)
+        elif shape == "transform":
+            cid = rng.choice(holders)
+            x = holder(cid)
+            attrs = [a for a in h.attrs_of(cid)
+                     if not (a["ty"][0] in ("set",) or a["ty"][-1] == ("spec", 1) and a["ty"][0] != "spec")]
+            chosen = rng.sample(attrs, rng.choice([2, 2, 3]))
+            j = later(len(chosen))
+            kwfn = []
+            for i, a in enumerate(chosen):
+                hit = i == j and reject != "none"
+                kwfn.append((a["aid"], h.fn_for(a["ty"], bad=hit and reject == "bad",
+                                                raising=hit and reject == "callback")))
+            hargs["fn"] = ("id",)        # hands back the (existing) instance it is given
+            hargs["kwfn"] = kwfn
+            h.add(("helper", x, ("transform_top", None), hargs), ("inst", cid), None)
+        else:
+            cid = rng.choice(holders)
+            item = h.new_k1()
+            kw = k1_keywords()
+            aids = [4, 4, 4, 53, 53, 54]
+            if flavour == "wide":
+                aids += [8, 8]
+            aid = rng.choice(aids)
+            ckw = [(1, V(1))]
+            if aid in (4, 8):
+                if rng.random() < 0.6:
+                    ckw.append((aid, h.new_k1()))
+                x = h.add(("construct", cid, None, ckw), ("inst", cid))
+                kind = rng.choice(["with", "update", "update"])
+                hargs["pos"] = [item]
+            else:
+                members = [h.new_k1() for _ in range(rng.choice([0, 1, 2]))]
+                if aid == 53:
+                    coll = h.alloc(("list", members))
+                else:
+                    coll = h.alloc(("dict", [(S(7 + i), m) for i, m in enumerate(members)]))
+                x = h.add(("construct", cid, None, ckw + [(aid, coll)]), ("inst", cid))
+                kind = rng.choice(["with_item", "with_item", "update_item"])
+                if aid == 53 and kind == "with_item":
+                    hargs["pos"] = [item]
+                    if rng.random() < 0.4:
+                        hargs["index"] = V(rng.choice([0, -1]))
+                        hargs["insert"] = rng.random() < 0.6
+                elif aid == 53:
+                    hargs["pos"] = [V(rng.choice([0, -1, 1])), item]
+                else:
+                    hargs["pos"] = [S(rng.choice([7, 7, 8, 0])), item]
+            hargs["kw"] = kw
+            if reject == "callback":
+                fail_at = rng.choice([1, 2])
+            h.add(("helper", x, (kind, aid), hargs), ("inst", cid), fail_at)
+        out.append({"table": table, "ops": h.ops, "nd": len(heap0)})
+    return out
